@@ -3615,7 +3615,7 @@ fn campaign<T: Subject>(backend: &str, n: usize, seed: u64, st: &mut Stats, lean
 
 fn run_all(cli: &hipverif_harness::util::Cli, st: &mut Stats, lean: &mut Option<LeanDriver>, save: &Option<String>) -> Result<String, String> {
     let thorough = cli.tier == "thorough";
-    let mult = if thorough { 50 } else { 1 };
+    let mult = if thorough { 12 } else { 1 };
     // development aids: `--div N` divides the random counts, `--no-exhaustive`
     let div: usize = cli.extra.iter().position(|a| a == "--div").and_then(|i| cli.extra.get(i + 1)).and_then(|v| v.parse().ok()).unwrap_or(1);
     let no_exh = cli.extra.iter().any(|a| a == "--no-exhaustive");
